@@ -14,9 +14,10 @@
   * `record_blocks_accepted_and_recovered`: the file-level statement for the six record blocks.
   * `hitobject_lines_accepted_partial`: the lines of circles, spinners and hold notes are LF-free record lines accepted by
     `parse_hit_objects` in any state, and the same kind of object comes back (for every lawful codec).
-  Still only a statement (evaluated by the `lines` oracle and the `enc` correspondence): slider lines, timing-point lines,
-  and hence that the whole `[TimingPoints]` and `[HitObjects]` blocks are LF-free record lines accepted by their parsers
-  (`list_block_lines_accepted_statement`).
+  Still only a statement in THIS file (evaluated by the `lines` oracle and the `enc` correspondence): slider lines,
+  timing-point lines, and hence that the whole `[TimingPoints]` and `[HitObjects]` blocks are LF-free record lines accepted
+  by their parsers (`list_block_lines_accepted_statement`). The `[TimingPoints]` half is proved in Props/C04Timing.lean
+  (`timing_block_lines`, `timing_lines_accepted`, `record_and_timing_blocks_accepted`).
 -/
 import RosuModel.Model.Encode
 import RosuModel.Props.C10
